@@ -102,6 +102,15 @@ CHECKS = {
         "rule": "small-derivations: exhaustive for the stated bound (one representative literal per alternative, <= 2 items, nesting 2). random-derivations: non-trivial = >= 2 items, or nesting >= 1, or a non-default literal form. unrepresentable-literals: 24 literals x 6 wrappers, exhaustive. distinct = distinct decoded cases.",
         "assumptions": ["standard Go semantics of a literal = strconv.ParseInt/ParseUint/ParseFloat/UnquoteChar/Unquote applied by the generator to the text it wrote"],
     },
+    "C12": {
+        "parts": [{"pkg": "notation", "test": "TestC12", "subs": ["all-single-edits", "mutants", "token-soup", "located-errors", "tails-after-error", "deep-nesting"],
+                   "budget_s": {"quick": 900, "thorough": 5400}}],
+        "technique": "mutation-based and grammar-based input generation (rapid) + exhaustive single-character edits of small documents; oracle = outcome classification (value | located syntax diagnostic whose quoted text must begin at the reported line/column | anything else is a violation) + goroutine-dump leak oracle; native go fuzzing with the same oracle in the thorough tier",
+        "level_text": "Inputs: every prefix, every single-character deletion and every insertion/substitution from a 21-character hostile alphabet at every position of 8 small documents (exhaustive); 1-3 random edits (delete, insert, substitute, truncate, duplicate, swap) of grammar-derived documents; arbitrary bytes, arbitrary runes, valid tokens in invalid orders, item kinds that do not match the type context; an illegal character injected at a token boundary of multi-line documents (the diagnostic must be an error token at exactly that line and column); syntax errors followed by 0..40 further units (more than 16 tokens after the error point); nesting depth up to 600 (quick) / 2000 (thorough). Oracle: ParseSource returns a collection, or panics with a string of the documented shape whose quoted token text begins at the reported line/position of the input (rune-wise); a runtime.Error, any other payload, a hang (watchdog) or a dead process is a violation; afterwards no goroutine may remain inside the scanner (goroutine dump: polled until every scanner goroutine has finished or is blocked in a channel send; the latter is the leak).",
+        "level_note": "Which token the parser blames is pinned down only in the located-errors sub-check, where it is unambiguous. Inputs are size-bounded (the scanner is quadratic); depth beyond 2000 is not explored (a Go stack overflow would need ~10^5 levels, minutes per parse).",
+        "rule": "non-trivial = the input is rejected (outcome is a diagnostic); accepted inputs count as trivial. distinct = distinct decoded cases. classes report the diagnostic's token type, long tails and error lines.",
+        "assumptions": ["'never hangs' = returns within 120 s on inputs of at most a few KiB (>= 100x the measured cost)", "the goroutine-dump leak oracle never reports a scanner that is still runnable"],
+    },
     "C13": {
         "parts": [{"pkg": "seq", "test": "TestC13", "subs": ["history", "words", "ctor-sizes"], "thorough_shards": 8}],
         "technique": "model-based stateful property testing (rapid) against a top-first slice model + exhaustive enumeration of push/pop words and constructor sizes",
